@@ -45,10 +45,11 @@ Definition obs_of (c : bcase) : list obs :=
                  | Ok m2 => kq_eqb (sort_kq m) (sort_kq m2)
                  | _ => false
                  end) ] ++
-      [ (* kind 53: the adjacency read by the algorithm lists each neighbour once per row and all
-           indexes are in range — the hypotheses of the stage theorems of Properties/C05.v *)
+      [ (* kind 53: the adjacency read by the algorithm lists each neighbour once per row, all
+           indexes are in range and, in weighted mode, every cost is strictly positive — the
+           hypotheses of C05_model_hop_count / C05_model_weighted of Properties/C05.v *)
         flag 53 (match conv_adj (b_weighted c) (successors_vec g) with
-                 | Some a => rows_nodup a && adj_ok (length a) a
+                 | Some a => rows_nodup a && adj_ok (length a) a && (negb (b_weighted c) || rows_pos a)
                  | None => false
                  end) ] ++
       (if b_withdef c then [flag 52 (def_flag g (b_weighted c) (b_normalized c))] else [])
